@@ -173,8 +173,12 @@ def all_places(fn):
 
 
 def const_str(op):
-    if op[0] == "k" and isinstance(op[2], dict) and "str" in op[2]:
-        return op[2]["str"]
+    """string constant of an operand: a `&str` literal, or the text behind a promoted `&"text"`"""
+    if op[0] == "k" and isinstance(op[2], dict):
+        if "str" in op[2]:
+            return op[2]["str"]
+        if "pstr" in op[2]:
+            return op[2]["pstr"]
     return None
 
 
